@@ -57,6 +57,12 @@ pub(crate) fn fits_empty_arena(
 	true
 }
 
+/// (smallest node, largest node, empty arena) sizes, for harnesses that aim batches at the arena limit.
+#[cfg(feature = "verif-hooks")]
+pub(crate) fn verif_node_sizes() -> (usize, usize, usize) {
+	(MAX_NODE_SIZE - (MAX_HEIGHT - 1) * LINKS_SIZE, MAX_NODE_SIZE, EMPTY_ARENA_SIZE as usize)
+}
+
 /// Arena size that takes entries with the given (key, value) lengths whatever tower heights are
 /// drawn for their nodes.
 pub(crate) fn arena_size_for(entries: impl Iterator<Item = (usize, usize)>) -> u64 {
